@@ -80,3 +80,11 @@ package publicationpb
 //@   track DecodeString
 //@   ensures [alphabet] calls(DecodeString) > old(calls(DecodeString)) ==> lastarg(DecodeString, 0) == base64.StdEncoding
 //@   ensures [decoded] token != "" ==> calls(DecodeString) == old(calls(DecodeString)) + 1
+//@
+//@ // C20: the computed properties (version hash, publish time, receipt reset) are applied to the MERGED value, i.e. by an
+//@ // after-interceptor; computing them on the request before a masked merge would throw them away
+//@ property C20
+//@ func (*Model).withComputedProperties(args) (opt)
+//@   track InterceptAfter
+//@   track InterceptBefore
+//@   ensures [after-merge] calls(InterceptAfter) == old(calls(InterceptAfter)) + 1 && calls(InterceptBefore) == old(calls(InterceptBefore)) && opt == lastcall(InterceptAfter)
